@@ -13,6 +13,7 @@ import (
 	"fmt"
 	"go/token"
 	"go/types"
+	"os"
 	"sort"
 	"strings"
 
@@ -127,20 +128,23 @@ type callRecord struct {
 	ctl    lset
 }
 
+var debugFlow = os.Getenv("SLIMLINT_DEBUG") != ""
+
 type flowAnalysis struct {
-	p        *Program
-	ctxs     map[string]*fctx
-	order    []string
-	objs     map[string]*fobject
-	changed  bool
-	scope    func(*ssa.Function) bool
-	optType  types.Type
-	events   map[string]*storeEvent
-	calls    map[string]*callRecord
-	barrier  func(*fobject) bool // work-list objects
-	recursed []string
-	abortRet func(*ssa.Return) bool
-	maxDepth int
+	lastChange string
+	p          *Program
+	ctxs       map[string]*fctx
+	order      []string
+	objs       map[string]*fobject
+	changed    bool
+	scope      func(*ssa.Function) bool
+	optType    types.Type
+	events     map[string]*storeEvent
+	calls      map[string]*callRecord
+	barrier    func(*fobject) bool // work-list objects
+	recursed   []string
+	abortRet   func(*ssa.Return) bool
+	maxDepth   int
 }
 
 func newFlow(p *Program) *flowAnalysis {
@@ -178,17 +182,20 @@ func (c *fctx) get(it *flowAnalysis, v ssa.Value) *aval {
 func (it *flowAnalysis) merge(dst, src *aval) {
 	if dst.labels.addAll(src.labels) {
 		it.changed = true
+		it.lastChange = "L183"
 	}
 	for o := range src.pts {
 		if !dst.pts[o] {
 			dst.pts[o] = true
 			it.changed = true
+			it.lastChange = "L188"
 		}
 	}
 	for ad := range src.addrs {
 		if !dst.addrs[ad] {
 			dst.addrs[ad] = true
 			it.changed = true
+			it.lastChange = "L194"
 		}
 	}
 }
@@ -196,6 +203,7 @@ func (it *flowAnalysis) merge(dst, src *aval) {
 func (it *flowAnalysis) addLabels(dst *aval, l lset) {
 	if dst.labels.addAll(l) {
 		it.changed = true
+		it.lastChange = "L201"
 	}
 }
 
@@ -203,6 +211,7 @@ func (it *flowAnalysis) addPts(dst *aval, o *fobject) {
 	if !dst.pts[o] {
 		dst.pts[o] = true
 		it.changed = true
+		it.lastChange = "L208"
 	}
 }
 
@@ -277,6 +286,30 @@ func targets(a *aval) []faddr {
 	return out
 }
 
+// worklistFiltered: the labels of a slice value; if it may be the work list,
+// the barrier labels (which elements exist is what defines the nodes) are dropped.
+func (it *flowAnalysis) worklistFiltered(x *aval) lset {
+	if it.barrier == nil {
+		return x.labels
+	}
+	isBar := false
+	for o := range x.pts {
+		if it.barrier(o) {
+			isBar = true
+		}
+	}
+	if !isBar {
+		return x.labels
+	}
+	tmp := lset{}
+	for k := range x.labels {
+		if !barrierLabel(k) {
+			tmp[k] = true
+		}
+	}
+	return tmp
+}
+
 // barrierLabel: labels that do not pass through the work list.
 func barrierLabel(k string) bool {
 	return k == "keepmask" || k == "values" || strings.HasPrefix(k, "opt:DedupValue")
@@ -335,17 +368,21 @@ func (it *flowAnalysis) store(c *fctx, in ssa.Instruction, to *aval, v *aval, ct
 		cl := ad.o.cell(ad.k)
 		if cl.labels.addAll(v.labels) {
 			it.changed = true
+			it.lastChange = "L340"
 		}
 		if cl.labels.addAll(ctl) {
 			it.changed = true
+			it.lastChange = "L343"
 		}
 		if cl.labels.addAll(stripKB(to.labels)) {
 			it.changed = true
+			it.lastChange = "L346"
 		}
 		for o := range v.pts {
 			if !cl.pts[o] {
 				cl.pts[o] = true
 				it.changed = true
+				it.lastChange = "L351"
 			}
 		}
 		ek := fmt.Sprintf("%d|%s|%s|%s", in.Pos(), c.key, ad.o.name, ad.k)
@@ -368,6 +405,7 @@ func (it *flowAnalysis) context(fn *ssa.Function, key string, depth int) *fctx {
 		it.ctxs[k] = c
 		it.order = append(it.order, k)
 		it.changed = true
+		it.lastChange = "L373"
 	}
 	return c
 }
@@ -501,6 +539,7 @@ func (it *flowAnalysis) step(c *fctx, b *ssa.BasicBlock, instr ssa.Instruction, 
 			if !a.addrs[na] {
 				a.addrs[na] = true
 				it.changed = true
+				it.lastChange = "L506"
 			}
 		}
 		it.addLabels(a, stripKB(x.labels))
@@ -512,15 +551,17 @@ func (it *flowAnalysis) step(c *fctx, b *ssa.BasicBlock, instr ssa.Instruction, 
 			if !a.addrs[na] {
 				a.addrs[na] = true
 				it.changed = true
+				it.lastChange = "L517"
 			}
 		}
 		for ad := range x.addrs { // pointer to array
 			if !a.addrs[ad] {
 				a.addrs[ad] = true
 				it.changed = true
+				it.lastChange = "L523"
 			}
 		}
-		it.addLabels(a, stripKB(x.labels))
+		it.addLabels(a, stripKB(it.worklistFiltered(x)))
 		it.addLabels(a, stripKB(c.get(it, in.Index).labels))
 	case *ssa.Index:
 		a := c.get(it, in)
@@ -638,9 +679,12 @@ func (it *flowAnalysis) step(c *fctx, b *ssa.BasicBlock, instr ssa.Instruction, 
 	case *ssa.MapUpdate:
 		m := c.get(it, in.Map)
 		v := newAval()
-		it.merge(v, c.get(it, in.Value))
-		it.merge(v, c.get(it, in.Key))
-		v.addrs = map[faddr]bool{}
+		for _, src := range []*aval{c.get(it, in.Value), c.get(it, in.Key)} {
+			v.labels.addAll(src.labels)
+			for o := range src.pts {
+				v.pts[o] = true
+			}
+		}
 		to := newAval()
 		for o := range m.pts {
 			to.addrs[faddr{o, "*"}] = true
@@ -692,11 +736,13 @@ func (it *flowAnalysis) call(c *fctx, site ssa.CallInstruction, ctl lset) {
 				if oo != o {
 					if o.cell("*").labels.addAll(oo.cell("*").labels) {
 						it.changed = true
+						it.lastChange = "L697"
 					}
 					for p := range oo.cell("*").pts {
 						if !o.cell("*").pts[p] {
 							o.cell("*").pts[p] = true
 							it.changed = true
+							it.lastChange = "L702"
 						}
 					}
 				}
@@ -705,21 +751,21 @@ func (it *flowAnalysis) call(c *fctx, site ssa.CallInstruction, ctl lset) {
 				y := c.get(it, args[1])
 				elems := newAval()
 				for oo := range y.pts {
-					it.addLabels(elems, oo.cell("*").labels)
+					elems.labels.addAll(oo.cell("*").labels)
 					for p := range oo.cell("*").pts {
 						elems.pts[p] = true
 					}
 					// struct elements: nested cells
 					for k, cl := range oo.cells {
 						if strings.HasPrefix(k, "*.") {
-							it.addLabels(elems, cl.labels)
+							elems.labels.addAll(cl.labels)
 							for p := range cl.pts {
 								elems.pts[p] = true
 							}
 						}
 					}
 				}
-				it.addLabels(elems, y.labels)
+				elems.labels.addAll(y.labels)
 				to := newAval()
 				for oo := range res.pts {
 					to.addrs[faddr{oo, "*"}] = true
@@ -731,12 +777,12 @@ func (it *flowAnalysis) call(c *fctx, site ssa.CallInstruction, ctl lset) {
 			y := c.get(it, args[1])
 			elems := newAval()
 			for oo := range y.pts {
-				it.addLabels(elems, oo.cell("*").labels)
+				elems.labels.addAll(oo.cell("*").labels)
 				for p := range oo.cell("*").pts {
 					elems.pts[p] = true
 				}
 			}
-			it.addLabels(elems, y.labels)
+			elems.labels.addAll(y.labels)
 			to := newAval()
 			for oo := range x.pts {
 				to.addrs[faddr{oo, "*"}] = true
@@ -796,6 +842,7 @@ func (it *flowAnalysis) call(c *fctx, site ssa.CallInstruction, ctl lset) {
 		cc := it.context(callee, ckey, c.depth+1)
 		if cc.ctl.addAll(stripKB(ctl)) {
 			it.changed = true
+			it.lastChange = "L801"
 		}
 		for i, p := range callee.Params {
 			if i < len(args) {
@@ -863,6 +910,7 @@ func (it *flowAnalysis) call(c *fctx, site ssa.CallInstruction, ctl lset) {
 			o := it.obj(fmt.Sprintf("ext:%s@%s#%s", name, it.p.Pos(site.Pos()), shortKey(c.key)), "ext", v.Type(), site.Pos(), c.key)
 			if o.cell("*").labels.addAll(filter(lab, v.Type())) {
 				it.changed = true
+				it.lastChange = "L868"
 			}
 			it.addPts(res, o)
 		}
@@ -883,6 +931,9 @@ func (it *flowAnalysis) solve() int {
 		}
 		if i > 300 {
 			panic("E2: no fixpoint after 300 passes")
+		}
+		if debugFlow {
+			fmt.Println("pass", i, "contexts", len(it.ctxs), "objects", len(it.objs), "lastChange", it.lastChange)
 		}
 	}
 }
